@@ -255,23 +255,23 @@ impl State {
 
 //@@ FN src/parse/lex/state.rs | impl State | token
 //@@ CLOSURE
-//@@< |nl| vec![nl]
-//@@> |nl: Lex| -> (v: Vec<Lex>) ensures v@ =~= seq![nl] { vec![nl] }
+//@@< |$nl| vec![$nl]
+//@@> |$nl: Lex| -> (v: Vec<Lex>) ensures v@ =~= seq![$nl] { vec![$nl] }
 //@@ HINT after
-//@@< let mut res = self.newlines.pop().map_or(vec![], |nl| vec![nl]);
-//@@> let ghost g0 = res@; let ghost gnl = self.newlines@; let ghost mut ki: int = 0; let ghost mut kd: int = -1;
+//@@< let mut $res = self.newlines.pop().map_or(vec![], |$nl| vec![$nl]);
+//@@> let ghost g0 = $res@; let ghost gnl = self.newlines@; let ghost mut ki: int = 0; let ghost mut kd: int = -1;
 //@@ HINT before
-//@@< res.append(&mut vec![Lex::new(self.pos, Token::Indent); amount]);
-//@@> proof { ki = amount as int; }
+//@@< $res.append(&mut vec![Lex::new(self.pos, Token::Indent); $ai]);
+//@@> proof { ki = $ai as int; }
 //@@ HINT before
-//@@< res.append(&mut vec![Lex::new(self.pos, Token::Dedent); amount]);
-//@@> proof { kd = amount as int; }
+//@@< $res.append(&mut vec![Lex::new(self.pos, Token::Dedent); $ad]);
+//@@> proof { kd = $ad as int; }
 //@@ HINT before
-//@@< res.append(&mut self.newlines);
-//@@> let ghost g1 = res@;
+//@@< $res.append(&mut self.newlines);
+//@@> let ghost g1 = $res@;
 //@@ HINT before
-//@@< res }
-//@@> proof { lemma_token_output(*old(self), g0, gnl, g1, res@, ki, kd); }
+//@@< $res }
+//@@> proof { lemma_token_output(*old(self), g0, gnl, g1, $res@, ki, kd); }
     requires
         wf(*old(self)),
         old(self).pos.line + tok_breaks(token) + 1 < 0x4000_0000,
